@@ -20,6 +20,7 @@ type Scope struct {
 	pkg     *types.Package
 	tracks  map[string]*trackInfo
 	where   string
+	macroDepth int
 }
 
 type evalErr string
@@ -206,6 +207,10 @@ func (sc *Scope) evalIdent(name string) Val {
 				return v
 			}
 		}
+	}
+	if th, srt := c.CS.theoryOfConst(name); th != nil {
+		c.needTheory(th)
+		return Val{T: name, S: Sort(srt)}
 	}
 	if p := sc.lookupPkg(name); p != nil {
 		return Val{T: "pkg", PkgRef: p}
@@ -438,6 +443,9 @@ func (sc *Scope) toIdx(v Val) string {
 }
 
 func (sc *Scope) coerceTo(v Val, t types.Type) Val {
+	if t == nil {
+		return v
+	}
 	if v.Lit != nil {
 		return Val{T: sc.c.intLit(v.Lit, t), S: sc.c.sortOf(t), GT: t}
 	}
@@ -672,6 +680,10 @@ func (sc *Scope) resolveSpecType(name string) (types.Type, Sort) {
 		if b.Name() == name {
 			return b, c.sortOf(b)
 		}
+	}
+	if th := c.CS.theoryOfSort(name); th != nil {
+		c.needTheory(th)
+		return nil, Sort(name)
 	}
 	t := sc.resolveType(name)
 	return t, c.sortOf(t)
@@ -1023,7 +1035,35 @@ func (sc *Scope) evalCall(x *ECall) Val {
 		}
 	}
 	if sf, ok := c.CS.Specs[x.Fn]; ok {
+		if sf.Macro {
+			return sc.applyMacro(sf, x)
+		}
 		return sc.applySpec(sf, x)
+	}
+	if th, tf := c.CS.theoryOfFun(x.Fn); th != nil {
+		c.needTheory(th)
+		if len(x.Args) != len(tf.Params) {
+			sc.fail("theory function %s expects %d arguments", tf.Name, len(tf.Params))
+		}
+		var ts []string
+		for i, pn := range tf.Params {
+			pt, ps := sc.resolveSpecType(pn)
+			a := arg(i)
+			if pt != nil {
+				a = sc.coerceTo(a, pt)
+			} else if a.Lit != nil {
+				a = Val{T: bigS(a.Lit), S: "Int"}
+			}
+			if a.S != ps {
+				sc.fail("theory function %s argument %d: sort %s, expected %s", tf.Name, i+1, a.S, ps)
+			}
+			ts = append(ts, a.T)
+		}
+		rt, rs := sc.resolveSpecType(tf.Ret)
+		if len(ts) == 0 {
+			return Val{T: tf.Name, S: rs, GT: rt}
+		}
+		return Val{T: fmt.Sprintf("(%s %s)", tf.Name, strings.Join(ts, " ")), S: rs, GT: rt}
 	}
 	// pure Go function under contract
 	for _, id := range sc.candidateIDs(x.Fn) {
@@ -1183,4 +1223,100 @@ func arraySorts(s string) (string, string) {
 		}
 	}
 	return "", ""
+}
+
+// applyMacro expands a macro at the use site: parameters are bound to the argument values and
+// the body is evaluated in the current scope (so it may read the heap, and old() inside it
+// means the old state of the use site).
+func (sc *Scope) applyMacro(sf *SpecFunc, x *ECall) Val {
+	if len(x.Args) != len(sf.Params) {
+		sc.fail("macro %s expects %d arguments", sf.Name, len(sf.Params))
+	}
+	nb := map[string]Val{}
+	for k, v := range sc.bound {
+		nb[k] = v
+	}
+	for i, p := range sf.Params {
+		pt, ps := sc.resolveSpecType(p.Type)
+		a := sc.rvalue(sc.eval(x.Args[i]))
+		if pt != nil {
+			a = sc.coerceTo(a, pt)
+			if a.GT == nil || a.S == ps {
+				a.GT = pt
+			}
+		} else if a.Lit != nil {
+			a = Val{T: bigS(a.Lit), S: "Int"}
+		}
+		if a.S != ps {
+			sc.fail("macro %s argument %d: sort %s, expected %s", sf.Name, i+1, a.S, ps)
+		}
+		nb[p.Name] = a
+	}
+	saved, savedWhere := sc.bound, sc.where
+	sc.bound = nb
+	if sc.macroDepth > 20 {
+		sc.fail("macro expansion too deep (recursive macro %s?)", sf.Name)
+	}
+	sc.macroDepth++
+	v := sc.rvalue(sc.eval(sf.Body.E))
+	sc.macroDepth--
+	sc.bound, sc.where = saved, savedWhere
+	rt, rs := sc.resolveSpecType(sf.Ret)
+	v = sc.coerceTo(v, rtOr(rt, v.GT))
+	if v.S != rs {
+		sc.fail("macro %s: body has sort %s, declared %s", sf.Name, v.S, rs)
+	}
+	return v
+}
+
+func rtOr(a, b types.Type) types.Type {
+	if a != nil {
+		return a
+	}
+	return b
+}
+
+func (cs *Contracts) theoryOfSort(name string) *Theory {
+	for _, th := range cs.Theories {
+		if th.Sorts[name] {
+			return th
+		}
+	}
+	return nil
+}
+
+func (cs *Contracts) theoryOfConst(name string) (*Theory, string) {
+	for _, th := range cs.Theories {
+		if s, ok := th.Consts[name]; ok {
+			return th, s
+		}
+	}
+	return nil, ""
+}
+
+func (cs *Contracts) theoryOfFun(name string) (*Theory, *TheoryFun) {
+	for _, th := range cs.Theories {
+		if f, ok := th.Funs[name]; ok {
+			return th, f
+		}
+	}
+	return nil, nil
+}
+
+// needTheory emits the theory's SMT text once per query context.
+func (c *Ctx) needTheory(th *Theory) {
+	if c.declared["theory:"+th.Name] {
+		return
+	}
+	c.declared["theory:"+th.Name] = true
+	if c.bv {
+		panic(unsupportedErr("theory " + th.Name + " is only available in int mode"))
+	}
+	c.needBytesTheory()
+	for _, l := range th.Smt {
+		c.decls = append(c.decls, l)
+	}
+	for _, a := range th.Axioms {
+		c.axiomsUsed[th.Name+":"+a] = true
+	}
 }
